@@ -94,6 +94,44 @@ class HistoryRun:
         return World(sc, 'k/kk/cache.gz' if self.nested else 'cache.gz')
 
 
+def bf_targets(program):
+    out = set()
+
+    def rec(body):
+        for st in body:
+            if st[0] == 'bf':
+                out.add(st[1])
+            elif st[0] == 'ifq':
+                rec(st[3])
+                rec(st[4])
+            elif st[0] == 'par':
+                for b in st[1]:
+                    rec(b)
+    for fd in program['funcs'].values():
+        rec(fd['body'])
+    for rb in program['roots']:
+        rec(rb)
+    return out
+
+
+def nested_cache_rel(rng, program):
+    """the cache file in its own directories, or inside directories whose names the program's paths
+    use too (outputs and queries next to / below / above the cache file's directory).  User obligation:
+    no build_file target is the cache file or one of its ancestor directories (an output there can never
+    coexist with the cache file: the library removes the directory to make room and the cache write fails)"""
+    targets = bf_targets(program)
+    cands = ['k/kk/cache.gz', 'a/cache.gz', 'a/b/cache.gz', 'c/b/a/cache.gz', 'b/cache.gz']
+    rng.shuffle(cands)
+    for c in cands:
+        anc = set()
+        parts = c.split('/')
+        for i in range(1, len(parts) + 1):
+            anc.add('/'.join(parts[:i]))
+        if not (targets & anc):
+            return c
+    return 'k/kk/cache.gz'
+
+
 def fix_issue_div(d):
     """'issue' divergences carry the client-side monitor kind in 'kind' overwritten; normalise"""
     return d
@@ -118,7 +156,9 @@ def run_histories(sh, *, select, make_cfg=None, steps_range=(4, 8), twin_prob=0.
         shape = program_shape(program)
         hist_hits = hist_miss = 0
         with Scratch('h') as sc:
-            w = World(sc, 'k/kk/cache.gz' if nested else 'cache.gz')
+            # nested cache file: in its own directories, or inside directories whose names the program's
+            # paths use too (outputs next to / below / above the cache file's directory)
+            w = World(sc, nested_cache_rel(rng, program) if nested else 'cache.gz')
             counter = [0]
             cut = False
             vers = {}
